@@ -24,3 +24,5 @@ INVARIANT MaskMinimalInv
 INVARIANT MaskExactInv
 INVARIANT Deterministic
 PROPERTY BuildReadOnly
+PROPERTY Progress
+INVARIANT StageKnown
